@@ -75,3 +75,34 @@ fn d5_ber_run_returns_error_instead_of_hanging_when_block_size_does_not_fit() {
         Err(_) => panic!("run() hangs: all workers died but the collector still blocks in recv()"),
     }
 }
+
+#[test]
+fn d6_cli_encode_writes_exactly_the_punctured_codeword() {
+    use clap::Parser;
+    use ldpc_toolbox::cli::{encode, Run};
+    let dir = std::env::temp_dir().join(format!("ldpcv-d6-{}", std::process::id()));
+    std::fs::create_dir_all(&dir).unwrap();
+    let mut h = SparseMatrix::new(3, 6);
+    h.insert_row(0, [0, 1, 3].iter());
+    h.insert_row(1, [1, 2, 4].iter());
+    h.insert_row(2, [0, 2, 5].iter());
+    let alist = dir.join("h.alist");
+    let input = dir.join("in.u8");
+    let output = dir.join("out.u8");
+    std::fs::write(&alist, h.alist()).unwrap();
+    std::fs::write(&input, [1u8, 0, 1, 0, 1, 1]).unwrap(); // two words of k = 3 bits
+    encode::Args::parse_from([
+        "encode",
+        alist.to_str().unwrap(),
+        input.to_str().unwrap(),
+        output.to_str().unwrap(),
+        "--puncturing",
+        "1,1,0",
+    ])
+    .run()
+    .unwrap();
+    let out = std::fs::read(&output).unwrap();
+    std::fs::remove_dir_all(&dir).ok();
+    // pattern 1,1,0 keeps 4 of 6 bits per codeword: 2 words -> 8 bytes
+    assert_eq!(out.len(), 8, "encode wrote {} bytes for two punctured codewords of 4 bits", out.len());
+}
